@@ -2,7 +2,7 @@
 usage: python3 harness/seed_matrix.py [seedname ...]"""
 import json, os, subprocess, sys
 V = "/verif"
-ALSO = {"C01": ["C02"], "C02": ["C01"], "C05": ["C06"], "C04": [], "C19": ["C18"], "C14": ["C19"], "C18": [], "C16": [], "C06": []}
+ALSO = {"C02b": ["C17"], "C01": ["C02"], "C02": ["C01"], "C05": ["C06"], "C04": [], "C19": ["C18"], "C14": ["C19"], "C18": [], "C16": [], "C06": []}
 names = sys.argv[1:] or sorted(os.listdir(os.path.join(V, "seeded")))
 res = {}
 for name in names:
